@@ -399,27 +399,59 @@ func c12r2(p *Program, r *Report) {
 	}
 	if fi := r.NeedFunc("marshalVarint"); fi != nil {
 		info := fi.Pkg.TypesInfo
-		rets := successReturns(fi)
-		// the only non-nil success return is the trimmed buffer
+		// the fixed 8-byte encoding borrowed from marshalBigInt is trimmed before it is returned: re-sliced in
+		// place (x = x[i:]) or passed through a helper that returns a re-slice of its parameter
 		okTrim := false
-		var trimmed string
+		trimmed := ""
+		var fixedVar string
 		ast.Inspect(fi.Decl.Body, func(x ast.Node) bool {
-			if as, ok := x.(*ast.AssignStmt); ok && len(as.Lhs) == 1 && len(as.Rhs) == 1 {
-				if sl, ok := as.Rhs[0].(*ast.SliceExpr); ok && exprStr(sl.X) == exprStr(as.Lhs[0]) && sl.Low != nil && sl.High == nil {
-					trimmed = exprStr(as.Lhs[0])
+			if as, ok := x.(*ast.AssignStmt); ok && len(as.Rhs) == 1 {
+				if c, ok := ast.Unparen(as.Rhs[0]).(*ast.CallExpr); ok && isCallTo(info, c, "marshalBigInt") && len(as.Lhs) >= 1 {
+					fixedVar = exprStr(as.Lhs[0])
 				}
 			}
 			return true
 		})
-		g := p.GraphOf(fi)
-		for _, ex := range g.Exits() {
-			if rs, ok := ex.Node.(*ast.ReturnStmt); ok && len(rs.Results) == 2 && exprStr(rs.Results[0]) == trimmed && trimmed != "" {
-				okTrim = true
+		returnsReslice := func(callee *FuncInfo) bool {
+			okR := false
+			if callee == nil || callee.Decl.Body == nil || callee.Decl.Type.Params.NumFields() != 1 {
+				return false
 			}
+			pn := callee.Decl.Type.Params.List[0].Names[0].Name
+			ast.Inspect(callee.Decl.Body, func(y ast.Node) bool {
+				if rs, ok := y.(*ast.ReturnStmt); ok && len(rs.Results) == 1 {
+					if sl, ok := ast.Unparen(rs.Results[0]).(*ast.SliceExpr); ok && exprStr(sl.X) == pn && sl.Low != nil && sl.High == nil {
+						okR = true
+					}
+				}
+				return true
+			})
+			return okR
 		}
-		_ = rets
-		_ = info
-		r.Check(okTrim, fi.Decl, "marshalVarint returns the trimmed two's-complement bytes", "return "+trimmed+" after "+trimmed+" = "+trimmed+"[i:]", "marshalVarint does not return its buffer through the leading-byte trim: varints are not minimal-length")
+		ast.Inspect(fi.Decl.Body, func(x ast.Node) bool {
+			switch s := x.(type) {
+			case *ast.AssignStmt:
+				if len(s.Lhs) == 1 && len(s.Rhs) == 1 && exprStr(s.Lhs[0]) == fixedVar {
+					if sl, ok := s.Rhs[0].(*ast.SliceExpr); ok && exprStr(sl.X) == fixedVar && sl.Low != nil && sl.High == nil {
+						okTrim, trimmed = true, fixedVar+" = "+exprStr(s.Rhs[0])
+					}
+				}
+			case *ast.ReturnStmt:
+				if len(s.Results) == 2 {
+					if c, ok := ast.Unparen(s.Results[0]).(*ast.CallExpr); ok && len(c.Args) == 1 && exprStr(c.Args[0]) == fixedVar {
+						if fn := calleeOf(info, c); fn != nil && returnsReslice(p.FuncOf(fn)) {
+							okTrim, trimmed = true, "return "+exprStr(c)
+						}
+					}
+				}
+			}
+			return true
+		})
+		if fixedVar == "" {
+			r.Unresolved("marshalVarint no longer borrows the fixed-width encoding from marshalBigInt")
+		} else {
+			r.Check(okTrim, fi.Decl, "marshalVarint trims the fixed-width encoding before returning it", trimmed, "the 8-byte encoding obtained from marshalBigInt is returned without the leading-byte trim: varints are not minimal-length")
+		}
 		// the uint64 > MaxInt64 case is widened with a zero byte
 		ok9 := false
 		ast.Inspect(fi.Decl.Body, func(x ast.Node) bool {
